@@ -646,6 +646,12 @@ func (d *Decoder) processPropertyElt(ectx evaluationContext, startElement xml.St
 		return d.processParseTypeCollectionPropertyElt(ectx, startElement, startElementMetadata)
 	}
 
+	// xml:lang and xml:base of the property element are in scope for a nested node element
+	nodeEltCtx, _, _, err := d.processCommonAttr(ectx, startElement, startElementMetadata)
+	if err != nil {
+		return err
+	}
+
 	var found string
 	var foundCharData []byte
 
@@ -965,7 +971,7 @@ func (d *Decoder) processPropertyElt(ectx evaluationContext, startElement xml.St
 				tokenMetadata, _ = d.tokenMetadata()
 			}
 
-			s, err := d.processNodeElt(ectx, tokenT, tokenMetadata)
+			s, err := d.processNodeElt(nodeEltCtx, tokenT, tokenMetadata)
 			if err != nil {
 				return fmt.Errorf("nodeElement: %w", err)
 			}
@@ -991,7 +997,7 @@ func (d *Decoder) processPropertyElt(ectx evaluationContext, startElement xml.St
 			d.statements = append(d.statements, t)
 
 			if rdfID != nil {
-				d.addReify(ectx, *rdfID, d.statements[len(d.statements)-1])
+				d.addReify(nodeEltCtx, *rdfID, d.statements[len(d.statements)-1])
 			}
 
 			found = tokenT.Name.Space + tokenT.Name.Local
